@@ -27,6 +27,12 @@ def add_methods(cls):
   return cls
 
 
+@bitstruct
+class MfSt:
+  inverse: Bits2                 # a field with the name of a method of every signal object
+  data: Bits2
+
+
 def add_lb(s):
   """every leaf also has a loop-back pair: the parent connects lb_out of a child back to lb_in of the SAME child"""
   s.lb_in = InPort(Bits4)
@@ -40,6 +46,12 @@ def add_lb(s):
   @update
   def up_lb_seen():
     s.lb_seen @= s.lb_in ^ 1
+
+  s.mf = OutPort(MfSt)                     # the parent reads the field mf.inverse
+
+  @update
+  def up_mf():
+    s.mf @= MfSt(s.in_[0:2], s.in_[2:4])
 
   s.ff_in = InPort(Bits4)                  # written by an update_ff block of the parent
   s.ff_seen = OutPort(Bits4)
@@ -379,6 +391,12 @@ class Top(Component):
     @update
     def up_refs():
       s.o12 @= s.a_out_ref ^ s.l_outs[1] ^ s.first.lb_seen
+
+    s.o13 = OutPort(Bits2)
+
+    @update
+    def up_mf_rd():
+      s.o13 @= s.a.mf.inverse ^ s.l[1].mf.inverse
 
     @update
     def up_slices():
